@@ -30,6 +30,7 @@ type DischargeOpts struct {
 	MaxGroup int
 	KeepScripts bool
 	Diagnose bool // on failure, locate the failing conjuncts and look for a candidate model
+	NoRetry  bool // skip the straggler pass
 }
 
 // Discharge proves the obligations, grouping chains that share a path prefix
@@ -72,9 +73,90 @@ func Discharge(obligs []*Oblig, opt DischargeOpts) []Result {
 		defer smu.Unlock()
 		return GroupScript(os, models)
 	}
+	// weak: the same goal with the quantified hypotheses dropped (fewer hypotheses: unsat still proves the obligation)
+	weakScript := func(o *Oblig) string {
+		smu.Lock()
+		defer smu.Unlock()
+		var hyps []*smt.Term
+		memo := map[*smt.Term]bool{}
+		dropped := false
+		for _, h := range o.HypList() {
+			if hasQuantM(h, memo) {
+				dropped = true
+				continue
+			}
+			hyps = append(hyps, h)
+		}
+		if !dropped || o.Goal == nil {
+			return ""
+		}
+		all := append(append([]*smt.Term(nil), hyps...), o.Goal)
+		q := &smt.Query{Hyps: append(constAxioms(all), hyps...), Goal: o.Goal}
+		return q.Script(false)
+	}
 	single := func(i int) {
+		if !opt.All && Cache != nil {
+			if cs := mkScript([]*Oblig{obligs[i]}, true); Cache.Proved(cs) {
+				mu.Lock()
+				res[i].Status, res[i].By = "unsat", "cache"
+				mu.Unlock()
+				return
+			}
+		}
+		if ws := weakScript(obligs[i]); ws != "" && !opt.All {
+			r := solve.Run(solve.Solvers[0], ws, 2*time.Second)
+			if r.Answer == "unsat" {
+				mu.Lock()
+				res[i].Status, res[i].By, res[i].Secs = "unsat", r.Solver+"+qf-hyps", r.Secs
+				mu.Unlock()
+				Cache.Add(mkScript([]*Oblig{obligs[i]}, true))
+				return
+			}
+		}
 		script := mkScript([]*Oblig{obligs[i]}, true)
 		v := solve.Decide(script, opt.Timeout, opt.All)
+		if v.Status == "undecided" && obligs[i].Goal != nil && obligs[i].Goal.Op == "and" && len(obligs[i].Goal.Args) > 1 {
+			// a conjunction that is too hard as a whole: prove the quantifier-free part as one goal and every
+			// quantified conjunct on its own (sound: every part must be unsat)
+			var qf []*smt.Term
+			var parts []*smt.Term
+			for _, c := range obligs[i].Goal.Args {
+				if hasQuant(c) {
+					parts = append(parts, c)
+				} else {
+					qf = append(qf, c)
+				}
+			}
+			if len(qf) > 0 {
+				parts = append([]*smt.Term{smt.And(qf...)}, parts...)
+			}
+			if len(parts) > 1 {
+				all := true
+				var secs float64
+				by := ""
+				hyps := obligs[i].HypList()
+				for _, c := range parts {
+					smu.Lock()
+					full := append(append([]*smt.Term(nil), hyps...), c)
+					q := &smt.Query{Hyps: append(constAxioms(full), hyps...), Goal: c}
+					cs := q.Script(false)
+					smu.Unlock()
+					cv := solve.Decide(cs, opt.Timeout, opt.All)
+					secs += cv.Secs
+					if cv.Status != "unsat" {
+						all = false
+						break
+					}
+					by = cv.By
+				}
+				if all {
+					v = solve.Verdict{Status: "unsat", By: by + "+split", Secs: v.Secs + secs}
+				}
+			}
+		}
+		if v.Status == "unsat" {
+			Cache.Add(script)
+		}
 		extra := ""
 		if v.Status != "unsat" && opt.Diagnose {
 			extra = diagnose(obligs[i], &smu)
@@ -107,6 +189,14 @@ func Discharge(obligs []*Oblig, opt DischargeOpts) []Result {
 				os[k] = obligs[i]
 			}
 			script := mkScript(os, false)
+			if !opt.All && Cache.Proved(script) {
+				mu.Lock()
+				for _, i := range g {
+					res[i].Status, res[i].By, res[i].Grouped = "unsat", "cache", true
+				}
+				mu.Unlock()
+				return
+			}
 			// groups get one short attempt; a group that is not proved at once is split
 			gt := 3 * time.Second
 			if opt.Timeout < gt {
@@ -120,6 +210,7 @@ func Discharge(obligs []*Oblig, opt DischargeOpts) []Result {
 					res[i].Status, res[i].By, res[i].Secs, res[i].Grouped = "unsat", v.By, v.Secs/float64(len(g)), true
 				}
 				mu.Unlock()
+				Cache.Add(script)
 				return
 			}
 			for _, i := range g {
@@ -128,6 +219,118 @@ func Discharge(obligs []*Oblig, opt DischargeOpts) []Result {
 		}()
 	}
 	wg.Wait()
+	// stragglers: the machine is idle now; every conjunct of an undecided goal gets its own query, a longer limit and few
+	// enough solver processes that each has a core (sound: every part must be unsat)
+	type part struct {
+		i    int
+		goal *smt.Term
+	}
+	var parts []part
+	var proved []int
+	var stragglers []int
+	pending := map[int]int{}
+	failed := map[int]bool{}
+	for i, r := range res {
+		if r.Status != "undecided" || obligs[i].Goal == nil || opt.All || opt.NoRetry {
+			continue
+		}
+		cs := []*smt.Term{obligs[i].Goal}
+		if obligs[i].Goal.Op == "and" {
+			cs = obligs[i].Goal.Args
+		}
+		stragglers = append(stragglers, i)
+		for _, c := range cs {
+			parts = append(parts, part{i, c})
+		}
+		pending[i] = len(cs)
+	}
+	// a path that cannot be taken needs no proof of its goals: try to refute the path condition alone first
+	if len(stragglers) > 0 {
+		jobs := opt.Jobs / 3
+		if jobs < 1 {
+			jobs = 1
+		}
+		sem2 := make(chan struct{}, jobs)
+		dead := map[int]bool{}
+		for _, i := range stragglers {
+			i := i
+			wg.Add(1)
+			sem2 <- struct{}{}
+			go func() {
+				defer wg.Done()
+				defer func() { <-sem2 }()
+				smu.Lock()
+				hyps := obligs[i].HypList()
+				q := &smt.Query{Hyps: append(constAxioms(hyps), hyps...), Goal: smt.False}
+				cs := q.Script(false)
+				smu.Unlock()
+				cv := solve.Race(cs, opt.Timeout)
+				if cv.Status == "unsat" {
+					mu.Lock()
+					dead[i] = true
+					res[i].Status, res[i].By, res[i].Secs = "unsat", cv.By+"+infeasible-path", res[i].Secs+cv.Secs
+					res[i].Script, res[i].Output, res[i].Diag = "", "", ""
+					proved = append(proved, i)
+					mu.Unlock()
+				}
+			}()
+		}
+		wg.Wait()
+		var rest []part
+		for _, pt := range parts {
+			if !dead[pt.i] {
+				rest = append(rest, pt)
+			}
+		}
+		parts = rest
+	}
+	if len(parts) > 0 {
+		jobs := opt.Jobs / 3
+		if jobs < 1 {
+			jobs = 1
+		}
+		sem2 := make(chan struct{}, jobs)
+		secs := map[int]float64{}
+		for _, pt := range parts {
+			pt := pt
+			wg.Add(1)
+			sem2 <- struct{}{}
+			go func() {
+				defer wg.Done()
+				defer func() { <-sem2 }()
+				mu.Lock()
+				skip := failed[pt.i]
+				mu.Unlock()
+				if skip {
+					return
+				}
+				smu.Lock()
+				hyps := obligs[pt.i].HypList()
+				full := append(append([]*smt.Term(nil), hyps...), pt.goal)
+				q := &smt.Query{Hyps: append(constAxioms(full), hyps...), Goal: pt.goal}
+				cs := q.Script(false)
+				smu.Unlock()
+				cv := solve.Race(cs, 3*opt.Timeout)
+				mu.Lock()
+				secs[pt.i] += cv.Secs
+				if cv.Status == "unsat" {
+					pending[pt.i]--
+					if pending[pt.i] == 0 && !failed[pt.i] {
+						res[pt.i].Status, res[pt.i].By, res[pt.i].Secs = "unsat", cv.By+"+retry-split", res[pt.i].Secs+secs[pt.i]
+						res[pt.i].Script, res[pt.i].Output, res[pt.i].Diag = "", "", ""
+						proved = append(proved, pt.i)
+					}
+				} else {
+					failed[pt.i] = true
+				}
+				mu.Unlock()
+			}()
+		}
+		wg.Wait()
+	}
+	for _, i := range proved {
+		Cache.Add(mkScript([]*Oblig{obligs[i]}, true))
+	}
 	return res
 }
 
